@@ -27,7 +27,7 @@ REAL = ["bec2format.bf3file / bec2file / crypto registry", "register_crypto_plug
         "when the fault arm is active)"]
 STUBS = ["medium: SimFS", "RNG: SimRng", "cipher fault wrapper FaultyAES / abstract base class for 'missing'",
          "RefAES, RefDir (independent models)"]
-PROBES = ["runs-with-assertions-disabled", "plain-configuration-replaced-by-set_config", "sibling-package-made-plain", "concurrent-writers-same-key", "rewritten-under-second-key", "content-longer-than-4096", "content-multiple-of-16", "content-trailing-zero", "content-all-zero", "cipher-missing", "cipher-raised-at-k",
+PROBES = ["runs-with-assertions-disabled", "marked-component-without-enc-tag", "plain-configuration-replaced-by-set_config", "sibling-package-made-plain", "concurrent-writers-same-key", "rewritten-under-second-key", "content-longer-than-4096", "content-multiple-of-16", "content-trailing-zero", "content-all-zero", "cipher-missing", "cipher-raised-at-k",
           "write-failed-no-file", "write-failed-file-exists", "rewrite-same-ciphertext", "bec2-framing", "config-component",
           "secrecy-needles-checked"]
 ASSUMPTIONS = ["encrypted content is defined up to its declared length; the reader returns the zero-padded plaintext"]
@@ -88,6 +88,11 @@ def gen(st, tier):
                          "s": w.getrandbits(32)}
         if c["alen"] is not None:
             c["alen"] = w.randint(1, n)
+        if w.random() < 0.08:
+            # marked for session-key encryption but without the ENC tag: the reader cannot know it has to
+            # decrypt (no demand on read-back), the secrecy clause still applies
+            c["desc"] = [d for d in c["desc"] if d[0] != 0xC2]
+            c["tagless"] = True
         comps.insert(w.randint(0, len(comps)), c)
     spec["obj"]["components"] = comps
     if w.random() < 0.6:
@@ -280,6 +285,7 @@ def run(case):
         import hashlib
         out.ev("file", kind, len(binary), hashlib.sha256(w.durable).hexdigest()[:12])
         enc_idx = [i for i, c in enumerate(w.model["components"]) if c["enc"]]
+        tagless = {i for i, c in enumerate(w.model["components"]) if c["enc"] and 0xC2 not in dict(c["desc"])}
         if case.get("plaincfg"):
             out.probes["plain-configuration-replaced-by-set_config"] += 1
         if case["obj"].get("config") is not None:
@@ -318,7 +324,9 @@ def run(case):
                          "component %d: stored length %d (expected %d), declared %d (expected %d)"
                          % (i, e["total"], len(expect), e["declared"], m["alen"]))
             tags = dict(refdir.tags_of(binary, e))
-            if tags.get(0xC2) != b"\x02":
+            if i in tagless:
+                out.probes["marked-component-without-enc-tag"] += 1
+            elif tags.get(0xC2) != b"\x02":
                 out.fail("C06.enc-tag", "missing", "component %d is encrypted but its ENC tag is %r" % (i, tags.get(0xC2)))
         # ---- secrecy ----
         needles = _needles(case, w)
@@ -327,6 +335,9 @@ def run(case):
             leak = _scan(needles, w.durable, binary)
             if leak:
                 out.fail("C06.secret-in-clear", leak.split(" ")[0], "%s appears in clear in the written file" % leak)
+        if tagless:
+            out.ev("ok-tagless", kind, mode)
+            return out
         # ---- restart, read back with the key ----
         fs.restart()
         decs = list(w.decryptors.values())
